@@ -1,5 +1,5 @@
 import Driver.Proto
-import ThunderModel.Fed.Gateway
+import ThunderModel.Fed.Normalize
 /-! C06 handler: the gateway model on one normalized query: plan, literal execution, the
 object-by-object form, and the combined server. -/
 open Lean TM.Fed.Gateway
@@ -41,6 +41,15 @@ def find3 {α} (l : List (Nat × Nat × Nat × α)) (a b c : Nat) : Option α :=
 def find2 {α} (l : List (Nat × Nat × α)) (a b : Nat) : Option α :=
   (l.find? fun (x, y, _) => x == a && y == b).map fun (_, _, v) => v
 
+mutual
+partial def decRSel (j : Json) : Except String RSel := do
+  pure (.mk (← nat j "a") (← nat j "n") (← bool j "i") (← decRSet (← field j "s")))
+partial def decRSet (j : Json) : Except String RSet := do
+  pure (.mk (← listOf decRSel (← field j "sels")) (← listOf decRFrag (← field j "frags")))
+partial def decRFrag (j : Json) : Except String RFrag := do
+  pure (.mk (← nat j "on") (← bool j "i") (← decRSet (← field j "s")))
+end
+
 def handle : Handler := fun req => do
   let op ← str req "op"
   match op with
@@ -66,6 +75,16 @@ def handle : Handler := fun req => do
       ("sel", Json.arr (body.1.map encQ).toArray),
       ("after", Json.arr (body.2.map encPlan).toArray),
       ("gateway", encR lit), ("fused", encR fused), ("mono", encR (.obj (evalSels st qs root)))]
+  | "normalize" =>
+    let child ← listOf (fun j => do pure (← nat j "t", ← nat j "n", ← nat j "c")) (← field req "child")
+    let applies ← listOf (fun j => do pure (← nat j "on", ← nat j "t")) (← field req "applies")
+    let raw ← decRSet (← field req "raw")
+    let t ← nat req "t"
+    let fuel ← nat req "fuel"
+    let ap : Nat → Nat → Bool := fun on t => applies.any fun (o, t') => o == on && t' == t
+    pure <| Json.mkObj [
+      ("normalized", Json.arr ((normalize ap (fun t n => find2 child t n) fuel t raw).map encQ).toArray),
+      ("old", Json.arr ((normalizeOld ap (fun t n => find2 child t n) fuel t raw).map encQ).toArray)]
   | _ => throw s!"C06: unknown op {op}"
 
 end Driver.C06
